@@ -54,7 +54,7 @@ impl OutputFormat for XBin {
 
         let mut flags = 0;
         let fonts = analyze_font_usage(buf);
-        let Some(font) = buf.get_font(fonts[0]) else {
+        let Some(font) = buf.get_font(*fonts.first().unwrap_or(&0)) else {
             return Err(SavingError::NoFontFound.into());
         };
         if font.length != 256 {
